@@ -86,7 +86,7 @@ func (x *concObj) doQueue(o tt.Op) tt.Res {
 			return tt.Res{Ok: x.q.Search(o.A[0])}
 		case "drain":
 			var out []int
-			for i := 0; i < 64 && x.q.Size() > 0; i++ {
+			for i := 0; i < 1000 && x.q.Size() > 0; i++ {
 				v, _ := x.q.Dequeue()
 				out = append(out, v)
 			}
@@ -110,7 +110,7 @@ func (x *concObj) doQueue(o tt.Op) tt.Res {
 			return tt.Res{Ok: x.lq.Search(o.A[0])}
 		case "drain":
 			var out []int
-			for i := 0; i < 64 && x.lq.Size() > 0; i++ {
+			for i := 0; i < 1000 && x.lq.Size() > 0; i++ {
 				out = append(out, x.lq.Dequeue())
 			}
 			return tt.Res{Ok: true, V: x.lq.Size(), S: out}
@@ -143,7 +143,7 @@ func (x *concObj) doStack(o tt.Op) tt.Res {
 			return tt.Res{Ok: x.s.Search(o.A[0])}
 		case "drain":
 			var out []int
-			for i := 0; i < 64 && x.s.Size() > 0; i++ {
+			for i := 0; i < 1000 && x.s.Size() > 0; i++ {
 				out = append(out, x.s.Pop())
 			}
 			return tt.Res{Ok: true, V: x.s.Size(), S: out}
@@ -163,7 +163,7 @@ func (x *concObj) doStack(o tt.Op) tt.Res {
 			return tt.Res{Ok: x.ls.Search(o.A[0])}
 		case "drain":
 			var out []int
-			for i := 0; i < 64 && x.ls.Size() > 0; i++ {
+			for i := 0; i < 1000 && x.ls.Size() > 0; i++ {
 				out = append(out, x.ls.Pop())
 			}
 			return tt.Res{Ok: true, V: x.ls.Size(), S: out}
@@ -195,7 +195,7 @@ func (x *concObj) doHeap(o tt.Op) tt.Res {
 		return tt.Res{Ok: ok, V: b2i(err != nil)}
 	case "drain":
 		var out []int
-		for i := 0; i < 64 && x.h.Size() > 0; i++ {
+		for i := 0; i < 1000 && x.h.Size() > 0; i++ {
 			out = append(out, x.h.Pop())
 		}
 		return tt.Res{Ok: true, V: x.h.Size(), S: out}
@@ -344,6 +344,9 @@ func fop(f, n string, a ...int) tt.Op {
 
 // concRun executes one program under the chooser and returns its event sequence.
 func concRun(p concProg, run func(bodies []func()) *vsync.Result) ([]tt.Op, []tt.Res, error) {
+	// with the access probes in place an access made while no lock is held is a scheduling point
+	vsync.Probes = true
+	defer func() { vsync.Probes = false }()
 	var ev []tt.Op
 	var rs []tt.Res
 	zero := tt.Res{S: []int{}}
@@ -395,6 +398,7 @@ func concRun(p concProg, run func(bodies []func()) *vsync.Result) ([]tt.Op, []tt
 type concType struct {
 	name  string
 	f     string
+	big   []tt.Op // a set-up that fills the backing array exactly (64 elements): only with one call per thread
 	inits [][]tt.Op
 	ops   func(th, i int) []tt.Op // operations a thread may perform as its i-th call
 	post  []tt.Op
@@ -404,8 +408,18 @@ func trieKey(s string) []int { return bytesOf(s) }
 
 func concTypes() []concType {
 	tk := func(v int, s string) []int { return append([]int{v}, bytesOf(s)...) }
+	fill := func(f, ctor, add string) []tt.Op {
+		r := []tt.Op{fop(f, ctor)}
+		if f == "heap" {
+			r = []tt.Op{fop(f, ctor, 0)}
+		}
+		for i := 0; i < 64; i++ {
+			r = append(r, fop(f, add, 5+i%3))
+		}
+		return r
+	}
 	return []concType{
-		{name: "stack", f: "stack",
+		{name: "stack", f: "stack", big: fill("stack", "news", "push"),
 			inits: [][]tt.Op{{fop("stack", "news")}, {fop("stack", "news"), fop("stack", "push", 1), fop("stack", "push", 2)}},
 			ops: func(th, i int) []tt.Op {
 				return []tt.Op{fop("stack", "push", 1), fop("stack", "push", 3), fop("stack", "pop"), fop("stack", "peek"), fop("stack", "size"), fop("stack", "search", 1)}
@@ -417,7 +431,7 @@ func concTypes() []concType {
 				return []tt.Op{fop("stack", "push", 1), fop("stack", "push", 4), fop("stack", "pop"), fop("stack", "peek"), fop("stack", "size"), fop("stack", "search", 1)}
 			},
 			post: []tt.Op{fop("stack", "size"), fop("stack", "peek"), fop("stack", "search", 1), fop("stack", "search", 4)}},
-		{name: "queue", f: "queue",
+		{name: "queue", f: "queue", big: fill("queue", "newq", "enq"),
 			inits: [][]tt.Op{{fop("queue", "newq")}, {fop("queue", "newq"), fop("queue", "enq", 1), fop("queue", "enq", 2)}},
 			ops: func(th, i int) []tt.Op {
 				return []tt.Op{fop("queue", "enq", 1), fop("queue", "enq", 3), fop("queue", "deq"), fop("queue", "peek"), fop("queue", "size"), fop("queue", "search", 1), fop("queue", "clear")}
@@ -429,7 +443,7 @@ func concTypes() []concType {
 				return []tt.Op{fop("queue", "enq", 1), fop("queue", "enq", 3), fop("queue", "deq"), fop("queue", "peek"), fop("queue", "size"), fop("queue", "search", 1), fop("queue", "clear")}
 			},
 			post: []tt.Op{fop("queue", "size"), fop("queue", "drain")}},
-		{name: "heap", f: "heap",
+		{name: "heap", f: "heap", big: fill("heap", "new", "push"),
 			inits: [][]tt.Op{{fop("heap", "new", 0)}, {fop("heap", "new", 0), fop("heap", "push", 2), fop("heap", "push", 4)}, {fop("heap", "new", 1), fop("heap", "push", 2)}},
 			ops: func(th, i int) []tt.Op {
 				return []tt.Op{fop("heap", "push", 1), fop("heap", "push", 3), fop("heap", "pop"), fop("heap", "peek"), fop("heap", "size"), fop("heap", "clear")}
@@ -481,8 +495,15 @@ func concPrograms(ct concType, full bool) []concProg {
 	if full {
 		shapes = [][]int{{2, 1}, {1, 1}, {2, 2}, {1, 1, 1}}
 	}
-	for _, init := range ct.inits {
+	inits := ct.inits
+	if ct.big != nil {
+		inits = append(append([][]tt.Op{}, inits...), ct.big)
+	}
+	for _, init := range inits {
 		for _, sh := range shapes {
+			if len(init) > 20 && (len(sh) != 2 || sh[0] != 1) {
+				continue
+			}
 			var rec func(t int, cur [][]tt.Op)
 			rec = func(t int, cur [][]tt.Op) {
 				if t == len(sh) {
